@@ -48,3 +48,27 @@ Theorem C04_sqrtcov_sqrtprec : forall (F : fieldType) (n : nat) (R : 'M[F]_n),
   R \in unitmx -> (invmx R)^T *m invmx R = invmx (R *m R^T).
 Proof. exact sqrtcov_sqrtprec. Qed.
 Print Assumptions C04_sqrtcov_sqrtprec.
+
+(* the eigenvalue branch used above MIN_DIM_SPARSE: cov = u diag(s) u^T with orthogonal u, sqrtprec = diag(r) u^T with
+   r_i^2 s_i = 1 (r_i = sqrt(1/s_i)), logdet = sum ln s_i: the precision sqrtprec^T sqrtprec is the inverse of cov and
+   prod s_i is its determinant -- what the dense branch computes with inv / slogdet.  Both sides of the switch agree. *)
+Theorem C04_eigh_branch_precision : forall (F : fieldType) (n : nat) (u : 'M[F]_n) (s r : 'rV[F]_n),
+  u^T *m u = 1%:M -> (forall i, r 0 i * r 0 i * s 0 i = 1) ->
+  let S := u *m diag_mx s *m u^T in
+  let R := diag_mx r *m u^T in
+  R^T *m R *m S = 1%:M.
+Proof. exact eigh_branch_prec. Qed.
+Print Assumptions C04_eigh_branch_precision.
+
+Theorem C04_eigh_branch_det : forall (F : fieldType) (n : nat) (u : 'M[F]_n) (s : 'rV[F]_n),
+  u^T *m u = 1%:M -> \det (u *m diag_mx s *m u^T) = \prod_i s 0 i.
+Proof. exact eigh_branch_det. Qed.
+Print Assumptions C04_eigh_branch_det.
+
+(* non-vacuity of the hypotheses of the eigenvalue-branch theorems (over the rationals, size 2) *)
+Example C04_eigh_nonvacuous : exists (u : 'M[rat]_2) (s r : 'rV[rat]_2),
+  u^T *m u = 1%:M /\ (forall i, r 0 i * r 0 i * s 0 i = 1).
+Proof.
+  exists 1%:M, (const_mx 1), (const_mx 1); split; first by rewrite trmx1 mulmx1.
+  by move=> i; rewrite !mxE !mulr1.
+Qed.
